@@ -97,7 +97,7 @@ Definition class_C08 (c : case) : nat :=
       match class_layers laa layers with
       | 0%nat => match class_C07 base tr with
                  | 0%nat => if cls_ambiguous base layers then 10%nat else 0%nat
-                 | k => (6 + k)%nat     (* 9: the open C07 class (pct marker) on the base graph; 7, 8 repaired *)
+                 | k => (6 + k)%nat     (* 7, 8, 9: the C07 classes on the base graph, all repaired (class_C07 = 0) *)
                  end
       | k => k
       end
